@@ -297,10 +297,8 @@ def run_lists(ctx: Ctx) -> None:
             ctx.oracle_fail("the own finalizer is not present/absent as the last transformation demands",
                             {"finalizer": f, "list": l, "fns": fns, "mode": mode, "got": got},
                             {"site": "finalizers." + fns[-1], "shape": "own finalizer presence"})
-        elif got != want:
-            ctx.oracle_fail("the own finalizer was not appended at the end / not all occurrences were removed",
-                            {"finalizer": f, "list": l, "fns": fns, "mode": mode, "got": got, "want": want},
-                            {"site": "finalizers." + (fns[-1] if fns else "none"), "shape": "position of the own finalizer"})
+        # where exactly the own finalizer lands (appended at the end) is the model's business, not the property's:
+        # `got != want` alone is left to the tie comparison below.
         reqs.append(["C06.fns", f, fns, l])
         impls.append(got)
         inputs.append({"finalizer": f, "list": l, "fns": fns, "mode": mode})
